@@ -126,6 +126,22 @@ fresh clone of the default context. -/
 def ffiPrivate (mask : Nat) (calls : List Ffi) : Bool :=
   calls.all (fun c => c.ctx != .shared && (!reach mask c.fn || c.ctx == .none || c.ctx == .freshClone))
 
+/-! ### The service around the evaluator (`Dmn/Gen/ServerState.lean`, translate/server_state.py) -/
+
+/-- the mask is closed under the call edges read backwards (callers of members are members): with
+the entries inside, it contains every function from which an entry is reachable -/
+def closedBackward (mask : Nat) (edges : List (Nat × Nat)) : Bool :=
+  edges.all (fun e => !reach mask e.2 || reach mask e.1)
+
+/-- No function takes two guards (a handler that would take the workspace lock twice can deadlock
+with itself as soon as a writer is queued in between: `Dmn.Conc.nested_read_deadlocks_with_writer`). -/
+def oneAcquisitionPerFn (ops : List Op) : Bool :=
+  ops.all (fun o => (ops.filter (fun p => p.fn == o.fn)).length == 1)
+
+/-- Every exclusive acquisition is made by a function from which no evaluation is reachable. -/
+def writesOutside (mask : Nat) (ops : List Op) : Bool :=
+  ops.all (fun o => o.kind == .read || !reach mask o.fn)
+
 /-! ## 2. Interleaving semantics -/
 
 /-- `σ`: the private state of a call (its scope, locals, result); `R`: the registries of the
